@@ -21,7 +21,7 @@ theorem interleave_eq (t0 : Str) (items : List Item) :
     interleave t0 items = interleaveB t0 (items.map fun it => (it.body, it.2.2)) := by
   induction items generalizing t0 with
   | nil => rfl
-  | cons it r ih => obtain ⟨i, d, t⟩ := it; simp [interleave, interleaveB, serialize, Item.body, ih]
+  | cons it r ih => obtain ⟨i, d, t⟩ := it; simp [interleave, interleaveB, tdSerialize, Item.body, ih]
 
 theorem chunksOf_eq (t0 : Str) (items : List Item) :
     chunksOf t0 (items.map fun it => (it.body, it.2.2)) = remText t0 items := by
@@ -83,7 +83,7 @@ def jmItems : List SDep → List Item
   | d :: d' :: r => (none, d, ['\n']) :: jmItems (d' :: r)
 
 theorem jsonModeStr_eq (html : Str) (ds : List SDep) : jsonModeStr html ds = interleave html (jmItems ds) := by
-  have key : ∀ (ds : List SDep) (t : Str), t ++ joinStr ['\n'] (ds.map (serialize none)) = interleave t (jmItems ds) := by
+  have key : ∀ (ds : List SDep) (t : Str), t ++ joinStr ['\n'] (ds.map (tdSerialize none)) = interleave t (jmItems ds) := by
     intro ds
     induction ds with
     | nil => intro t; simp [joinStr, jmItems, interleave]
